@@ -138,6 +138,7 @@ def generate(contract):
         g.update(S.globals)
         it = Interp(ctx, g, module=fn.module, loops=contract.loops, exc_parents=exc_parents, fnname=fn.ref, module_names=modnames, exact=getattr(contract, 'exact', False))
         ctx.interp = it
+        it.index_loops(fn.node)
         try:
             v = it.call_function(fn.node, S.args, S.kwargs)
             return PathResult(ctx, 'return', value=v)
@@ -184,6 +185,8 @@ def generate(contract):
 
         for clause, hyps, goal, kind, info, bounded in ctx.obligations:
             mk(clause, hyps, goal, kind, info, bounded)
+        # reachability cover: the hypotheses of this path must not be contradictory (else everything is "proved")
+        mk('cover:path-hypotheses-consistent', ctx.hyps(), z3.BoolVal(False), 'cover')
         try:
             if r.outcome == 'return':
                 for clause, goal in contract.ensures(ctx, S, r.value):
